@@ -2,7 +2,7 @@
     (Caco/Build.v) and compare, after every build, the result, the executed
     rules and the whole out/ tree with what the real [caco3.Builder] did. *)
 From Coq Require Import List String Bool Arith NArith.
-From Verif Require Import Caco.Load Caco.Build.
+From Verif Require Import Caco.Load Caco.Build Caco.BuildSession.
 Import ListNotations.
 Local Open Scope string_scope.
 
@@ -16,7 +16,9 @@ Record bobs := mkObs {
 
 Inductive hstep :=
 | HOp (o : op)
-| HBuild (always : bool) (ts : list name) (expect : bobs).
+| HBuild (always : bool) (ts : list name) (expect : bobs)
+| HNew         (* the harness replaces its long-lived Builder *)
+| HWipe.       (* the harness removes out/ wholesale (out/CACHE included) *)
 
 Record hcase := mkHist {
   h_rules : list rule;
@@ -75,6 +77,11 @@ Fixpoint replay (w : world) (steps : list hstep) (i : nat) : nat :=
       match build_with always ts w with
       | (w', ex, res) => if obs_match w' ex res e then replay w' r (S i) else S i
       end
+  (* what a Builder holds between Build calls is no part of the proved model
+     (memo made per Build: Caco/BuildSessionGen.v), so whether the harness
+     keeps one Builder or makes a new one is invisible here *)
+  | HNew :: r => replay w r (S i)
+  | HWipe :: r => replay (clean w) r (S i)
   end.
 
 Definition check_hist (c : hcase) : nat :=
@@ -84,15 +91,17 @@ Definition results (cs : list hcase) : list nat := map check_hist cs.
 
 (** Does every build of the history stay in the scope of the theorems
     ([hist_in_scope])? 1 = yes. *)
-Definition ops_of (steps : list hstep) : list op :=
+Definition ops_of (steps : list hstep) : list sop :=
   map (fun s => match s with
-                | HOp o => o
-                | HBuild false ts _ => OBuild ts
-                | HBuild true ts _ => OBuildAlways ts
+                | HOp o => SOp o
+                | HBuild false ts _ => SOp (OBuild ts)
+                | HBuild true ts _ => SOp (OBuildAlways ts)
+                | HNew => SNewBuilder
+                | HWipe => SWipeOut
                 end) steps.
 
 Definition in_scope (c : hcase) : nat :=
-  if hist_in_scopeb (ops_of (h_steps c)) (empty_world (h_rules c) (h_src c)) then 1 else 0.
+  if shist_in_scopeb (ops_of (h_steps c)) (empty_world (h_rules c) (h_src c)) then 1 else 0.
 
 Definition scopes (cs : list hcase) : list nat := map in_scope cs.
 
@@ -102,6 +111,8 @@ Fixpoint model_trace (w : world) (steps : list hstep) : list (nat * nat) :=
   match steps with
   | [] => []
   | HOp o :: r => model_trace (step w o) r
+  | HNew :: r => model_trace w r
+  | HWipe :: r => model_trace (clean w) r
   | HBuild always ts _ :: r =>
       match build_with always ts w with
       | (w', ex, res) =>
